@@ -47,7 +47,7 @@ impl<'a> WireFormat<'a> for NULL<'a> {
     where
         Self: Sized,
     {
-        let data = &data[*position..];
+        let data = data.get(*position..).ok_or(crate::SimpleDnsError::InsufficientData)?;
         *position += data.len();
         Self::new(data)
     }
